@@ -2820,3 +2820,123 @@ def cuts_distinct(r: R, chk, quals: List[str], rule="CUTS-DISTINCT", floor: int 
                        func=q, construct=f"cut points not de-duplicated: {seg(x, 30)}")
     chk.floor(rule, "loops over consecutive cut points", n, floor)
     return n
+
+
+# ---------------------------------------------------------------------------------------------------------
+# ERROR-QUADRATIC: where T is not the free minimiser the reported error is the full quadratic form in T
+PRODUCT_CALLS = ("dot", "matmul", "tensordot", "inner", "outer", "einsum", "multiply")
+
+
+def _formal_degrees(e, sym: str):
+    """set of formal degrees in the symbol `sym` of the terms of e (None: not computable)"""
+    if not any(isinstance(x, ast.Name) and x.id == sym for x in ast.walk(e)):
+        return {0}
+    if isinstance(e, ast.Name):
+        return {1}
+    if isinstance(e, ast.Attribute) and e.attr in ("T", "real"):
+        return _formal_degrees(e.value, sym)
+    if isinstance(e, ast.UnaryOp):
+        return _formal_degrees(e.operand, sym)
+    if isinstance(e, ast.BinOp):
+        a, b = _formal_degrees(e.left, sym), _formal_degrees(e.right, sym)
+        if isinstance(e.op, (ast.Add, ast.Sub)):
+            return a | b
+        if isinstance(e.op, (ast.Mult, ast.MatMult)):
+            return {None if (x is None or y is None) else x + y for x in a for y in b}
+        if isinstance(e.op, ast.Div) and b == {0}:
+            return a
+        return {None}
+    if isinstance(e, ast.Call):
+        fn = seg(e.func).split(".")[-1]
+        args = [x for x in e.args if not (isinstance(x, ast.Constant) and isinstance(x.value, str))]
+        if fn in PRODUCT_CALLS and len(args) == 2:
+            a, b = _formal_degrees(args[0], sym), _formal_degrees(args[1], sym)
+            return {None if (x is None or y is None) else x + y for x in a for y in b}
+        if fn in ("transpose", "array", "asarray", "totuple", "tuple", "copy", "conj") and args:
+            return _formal_degrees(args[0], sym)
+        if fn in ("sum", "trace", "diag", "abs", "max") and len(args) == 1:
+            return _formal_degrees(args[0], sym)
+        return {None}
+    if isinstance(e, ast.Subscript):
+        return _formal_degrees(e.value, sym)
+    return {None}
+
+
+def _block_defs(fn: ast.FunctionDef):
+    """for every statement list of the function: the list itself and its parent list position (to look back for reaching definitions)"""
+    out = {}
+
+    def rec(stmts, up):
+        for i, s in enumerate(stmts):
+            out[id(s)] = (stmts, i, up)
+            for f in ("body", "orelse", "finalbody"):
+                sub = getattr(s, f, None)
+                if isinstance(sub, list) and sub and isinstance(sub[0], ast.stmt):
+                    rec(sub, s)
+            for h in getattr(s, "handlers", []) or []:
+                rec(h.body, s)
+
+    rec(fn.body, None)
+    return out
+
+
+def reaching_assign(fn: ast.FunctionDef, at: ast.stmt, name: str, pos=None):
+    """the last plain assignment to `name` that textually precedes `at` in its own statement list or an enclosing one"""
+    pos = pos or _block_defs(fn)
+    cur = at
+    while cur is not None and id(cur) in pos:
+        stmts, i, up = pos[id(cur)]
+        for s in reversed(stmts[:i]):
+            if isinstance(s, ast.Assign) and any(name in _target_names(t) for t in s.targets):
+                return s
+            if any(isinstance(x, (ast.Assign, ast.AugAssign)) and name in (set().union(*[_target_names(t) for t in x.targets]) if isinstance(x, ast.Assign) else _target_names(x.target)) for x in ast.walk(s)):
+                return None  # defined inside a nested block: no single reaching definition
+        cur = up
+    return None
+
+
+def error_quadratic(r: R, chk, qual: str, rule="ERROR-QUADRATIC"):
+    """The function returns (T, E).  E = FF - GF^T T is the squared error only when T solves the free normal equations GG T = GF
+    (T a pure product).  Where T carries an additive correction (interpolation constraints) GG T != GF, and E has to be the whole
+    quadratic form FF - 2 T^T GF + T^T GG T: formally of degree 2 in T."""
+    from .common import expand_locals
+
+    fi = r.prog.func(qual)
+    fn = fi.node
+    pos = _block_defs(fn)
+    n = 0
+    for ret in ast.walk(fn):
+        if not (isinstance(ret, ast.Return) and isinstance(ret.value, ast.Tuple) and len(ret.value.elts) == 2):
+            continue
+        names = []
+        for el in ret.value.elts:
+            while isinstance(el, ast.Call) and len(el.args) == 1:
+                el = el.args[0]
+            names.append(el.id if isinstance(el, ast.Name) else None)
+        tn, en = names
+        if tn is None or en is None:
+            continue
+        # every definition of E that can reach this return
+        for st in ast.walk(fn):
+            if not (isinstance(st, ast.Assign) and len(st.targets) == 1 and isinstance(st.targets[0], ast.Name) and st.targets[0].id == en):
+                continue
+            tdef = reaching_assign(fn, st, tn, pos)
+            if tdef is None:
+                chk.note(f"{rule}: {qual}: no single definition of `{tn}` reaches `{seg(st, 40)}`: not decided")
+                continue
+            tex = expand_locals(fi, tdef.value)
+            additive = any(isinstance(x, ast.BinOp) and isinstance(x.op, (ast.Add, ast.Sub)) for x in ast.walk(tex))
+            n += 1
+            if not additive:
+                chk.ob(rule, f"{qual}: `{seg(st, 40)}` with the free minimiser `{seg(tdef, 30)}` (short form allowed)", True, loc=f"{fi.module}.py:{st.lineno}")
+                continue
+            ds = _formal_degrees(expand_locals(fi, st.value), tn)
+            if None in ds:
+                chk.note(f"{rule}: {qual}: the degree of `{seg(st.value, 40)}` in `{tn}` could not be computed: not decided")
+                continue
+            ok = 2 in ds
+            chk.ob(rule, f"{qual}: `{seg(st, 40)}` is the full quadratic form in the constrained `{tn}`", ok, loc=f"{fi.module}.py:{st.lineno}",
+                   detail="" if ok else f"{qual}: `{seg(st, 60)}` has no term of degree 2 in `{tn}` (degrees {sorted(ds)}), but `{seg(tdef, 50)}` is not the free minimiser: with the interpolation constraints GG·{tn} ≠ GF, so the short form is not the squared deviation — the error handed to the tolerance gate is too small (even negative) and an inexact removal is accepted",
+                   func=qual, construct=f"error not quadratic in the constrained {tn}")
+    chk.floor(rule, f"error expressions in {qual}", n, 2)
+    return n
